@@ -6,10 +6,13 @@ import re
 
 HERE = os.path.dirname(os.path.dirname(os.path.abspath(__file__)))
 rows = json.load(open(os.path.join(HERE, "seeded", "SUMMARY.json")))
+if os.path.exists(os.path.join(HERE, "seeded", "SUMMARY-r2.json")):
+    rows += json.load(open(os.path.join(HERE, "seeded", "SUMMARY-r2.json")))
 first = {}
-path1 = os.path.join(HERE, "seeded", "ROUND1.json")
-if os.path.exists(path1):
-    first = {r["id"]: r for r in json.load(open(path1))}
+for nm in ("ROUND1.json", "ROUND1-r2.json"):
+    path1 = os.path.join(HERE, "seeded", nm)
+    if os.path.exists(path1):
+        first.update({r["id"]: r for r in json.load(open(path1))})
 lines = ["| seed | breaks | change (one line) | needs, to manifest | own check, first round | detected by (final) | clause that fires |",
          "|---|---|---|---|---|---|---|"]
 for r in rows:
